@@ -5,6 +5,8 @@ from vlib import common as C
 from vlib.diff import Case, differential
 
 LEVEL = "proof"
+# C functions this check's models mirror (source-text fingerprints are recorded in the evidence, see translate/funchash.py)
+MODELLED_FUNCS = {'src/utils/iwconv.c': ['iwitoa', 'iwatoi', 'iwatoi2', 'iwhex2bin', 'iwbin2hex', 'iwafcmp'], 'src/kv/iwkv.c': ['_cmp_keys_prefix', '_cmp_keys', '_lx_sblk_cmp_key']}
 MANIFEST = dict(
     level="proof",
     text=("Lean 4 theorems over executable models of the vnum codec, iwitoa/iwatoi, hex codec and the six key comparators "
